@@ -29,7 +29,7 @@ def plan(tier, seed):
     specs = [(1, 1), (2, 1), (3, 1), (4, 0)] if tier == 'quick' else [(1, 2), (2, 2), (3, 1), (4, 1), (5, 0)]
     dev = 2 if tier == 'quick' else 3
     return {
-        'chunks': sweep.shape_chunks(specs, per_chunk=2, dev=dev),
+        'chunks': sweep.shape_chunks(specs, per_chunk=2, big=True, dev=dev),
         'rule': 'every hierarchy over n tokens (<= u unary, discontinuous included) built through the tree API x '
                 'variants {plain words; rotations of the special alphabet %r incl. XML-special, non-ASCII, '
                 'parenthesis and tab-stop-length words; lemma / morph / edge / all three = None} x 5 writers x every '
